@@ -573,6 +573,12 @@ static void ev_ato(Text const& text)
 template <typename T, bool Ws, bool Chk>
 static void ev_to_integer(Text const& text, int base)
 {
+    if constexpr (!Chk) {
+        // check_overflow = false documents "the caller guarantees the value fits": whether it does cannot be decided
+        // here without an oracle, so the sanitizer run (C02, valid use only) leaves the unchecked form out
+        static bool const domain_only = std::getenv("VH_DOMAIN_ONLY") != nullptr;
+        if (domain_only) { return; }
+    }
     InBuf in(text, false);
     constexpr auto opt = etl::strings::to_integer_options{.skip_whitespace = Ws, .check_overflow = Chk};
     json e;
